@@ -1,2 +1,3 @@
 -- Root of the `OapiVerif` library: every property file.
 import OapiVerif.Props.C15
+import OapiVerif.Props.C16
